@@ -27,10 +27,17 @@ def feature_tables(n, small=False):
         # joins whose parts are several letters long: a rotation can make one part run past the end while the other wraps
         tables.append([("exon", [(0, 2, 1), (3, 5, 1)], {"label": ["join-long"]})])
         tables.append([("exon", [(3, 5, -1), (0, 2, -1)], {"label": ["join-long-rev"]}), ("misc_feature", [(n - 2, n, 1), (0, 2, 1)], {"label": ["span-long"]})])
+    extra = []
+    if n >= 3:
+        # joins whose parts lie on different strands (trans-spliced genes; Biopython reports their strand as None),
+        # a strandless part next to a stranded one, and three parts
+        extra.append([("gene", [(0, 1, 1), (2, 3, -1)], {"label": ["mixed-strand"]})])
+        extra.append([("gene", [(2, 3, -1), (0, 1, 1)], {"label": ["mixed-strand-rev"]})])
+        extra.append([("misc_feature", [(0, 1, None), (1, 2, 1), (2, 3, -1)], {"label": ["three-parts"]})])
     if small:
         keep = [0, 1, 2, 4, 5, 6, 8, 10, 12, 13]
         tables = [t for i, t in enumerate(tables) if i in keep]
-    return tables
+    return tables + extra
 
 
 def build_location(parts):
